@@ -2,6 +2,7 @@ pub mod c01;
 pub mod c05;
 pub mod c07;
 pub mod c10;
+pub mod c11;
 pub mod c12;
 pub mod swapmon;
 pub mod twohop;
